@@ -18,6 +18,9 @@ ops   new:<neg>            client options: neg=1 negotiates versions (default cl
       ps:<typ>:<id|@c>:<pay>     the peer sends a frame (@c = the id caller c's request carried)
       pcut:<k>:<typ>:<id|@c>:<pay>  the peer sends the first k bytes of that frame (0 ≤ k < its length) and vanishes
       pc                   the peer closes its side / the connection is closed locally
+      pstall / presume     the peer stops / resumes reading what the client writes
+      pspart:<k>:<typ>:<id|@c>:<pay> / psrest   the peer sends the first k ≥ 10 bytes of a frame (header and part of the payload) / the rest
+      ws:<typ>  kh:<n>     waits: the write loop has begun (or finished) writing a frame of that type / n KeepAlives have been handled
       pcutout:<j>          the peer reads only j bytes (j < frame length) of the next frame the client writes and vanishes
       tmo                  the read deadline expires (clients WithTimeout) while the first message is awaited
       call:<c>:<typ>:<pay> SendMessage by caller c ;  nw:<c>:<typ>:<pay> SendNoWait ; shutdown:<c> Shutdown
@@ -41,6 +44,10 @@ structure Sim where
   early : Option Nat := none
   /-- the peer vanishes inside the next frame the client writes -/
   outCut : Bool := false
+  /-- the peer has stopped reading: a frame being written stays in `writing` -/
+  stalled : Bool := false
+  /-- the peer has sent only part of a frame's payload: the read loop stays where it is -/
+  rdHold : Bool := false
 
 def negGSV : Nat := 900
 def negSPV : Nat := 901
@@ -73,13 +80,18 @@ def negActs (m : Sim) : List Act :=
     | _ => []
   | _ => []
 
+/-- Candidate internal actions. Two refinements of the model's free choice that the scripts rely on (both are facts
+about the code proved elsewhere or about the scripted peer): acks have priority over requests (`handleOutgoing`'s outer
+`select`, C07), and a write completes only when the peer reads / a payload is read only when the peer has sent it. -/
 def cands (m : Sim) : List Act :=
   let all := m.cs ++ [negGSV, negSPV]
+  let picks := if m.s.ackQ.isEmpty then all.map Act.wrPickReq else []
+  let rdBody : List Act := if m.rdHold then [] else [.rdDeliver, .rdHandle]
+  let wrBody : List Act := if m.stalled then [] else [if m.s.peerClosed || m.outCut then Act.wrFail else Act.wrWrite]
   [Act.connInitial m.firstOk m.neg, .connInitialFail true, .connRejectReady, .connNegErrs, .connNegClosed] ++ negActs m ++
   [.connReady, .connServeErr, .connServeDone, .connReturn, .connFailReturn,
-   .rdSeeDone, .rdHeader, .rdEof, .rdDispatch, .rdDeliver, .rdHandle, .rdWaitDone,
-   .wrSeeDone, .wrPickAck] ++ all.map Act.wrPickReq ++
-  [if m.s.peerClosed || m.outCut then Act.wrFail else Act.wrWrite, .wrParkedDone] ++
+   .rdSeeDone, .rdHeader, .rdEof, .rdDispatch] ++ rdBody ++ [.rdWaitDone,
+   .wrSeeDone, .wrPickAck] ++ picks ++ wrBody ++ [.wrParkedDone] ++
   all.flatMap (fun c => [Act.callReady c, .callToken c, .callGetReply c, .callSeeDone c, .callSeeCtx c])
 
 /-- Shutdown = SendMessage(CloseConnection), then Close when the reply is a CloseConnectionResponse with status Success
@@ -172,6 +184,21 @@ def parseOp (m : Sim) (t : String) : Option Op :=
         | none => m) true)
     | _ => none
   | ["pc"] => some (.env (fun m => act m .peerClose) false)
+  | ["pstall"] => some (.env (fun m => { m with stalled := true }) true)
+  | ["presume"] => some (.env (fun m => { m with stalled := false }) false)
+  | ["pspart", k, typ, id, pay] =>
+    match natArgs [k, typ, pay] with
+    | some [k, typ, pay] => some (.env (fun m => match resolveId m id with
+        | some id =>
+          if k < 10 then m
+          else { act (act (act m (.peerSend { typ := typ, id := id, pay := pay })) .rdHeader) .rdDispatch with rdHold := true }
+        | none => m) true)
+    | _ => none
+  | ["psrest"] => some (.env (fun m => { m with rdHold := false }) false)
+  | ["ws", typ] => typ.toNat?.map (fun t => .wait (fun m =>
+      m.s.written.any (fun w => w.f.typ == t) || (match m.s.wr with | .writing f _ => f.typ == t | _ => false)))
+  | ["kh", n] => n.toNat?.map (fun n => .wait (fun m =>
+      (m.s.received.filter (fun f => f.typ == 62)).length ≥ n && m.s.rd == .idle))
   | ["pcutout", _] => some (.env (fun m => { m with outCut := true }) true)
   | ["tmo"] => some (.env (fun m => act m (.connInitialFail false)) true)
   | ["call", c, typ, pay] =>
